@@ -85,6 +85,11 @@ def oracle_owner(ops, lines):
             want = f"tok={own[o][0]} unreg=0" if own[o] else "tok=0 unreg=1"
             if a != want:
                 fails.append((i, f"owner {o} reports {a}, expected {want}", None))
+        elif t[0] == "ott":
+            v = own[int(t[1])]
+            want = "ok tt=null" if not v else f"ok tt=in same=1 rt={v[1]}"
+            if a != want:
+                fails.append((i, f"the tainted pointer handed out by owner {t[1]} -> {a}, expected {want} (inside this sandbox, representation = token, looks up to the registered pointer)", None))
         elif t[0] == "olook":
             tok = int(t[1])
             holder = [v for v in own.values() if v and v[0] == tok]
@@ -165,7 +170,7 @@ def run(chk):
     oops = ([f"oreg {o} {p}" for o in range(3) for p in (11, 12)] + [f"omove {d} {s}" for d in range(3) for s in range(3)] +
             [f"omovec {d} {s}" for d in range(3) for s in range(3) if d != s] +
             [f"ounreg {o}" for o in range(3)] + [f"odestroy {o}" for o in range(3)])
-    probe = [f"ostat {o}" for o in range(3)] + [f"olook {t}" for t in range(0, 6)]
+    probe = [f"ostat {o}" for o in range(3)] + [f"olook {t}" for t in range(0, 6)] + [f"ott {o}" for o in range(3)]
     import itertools
     for be in ("vsbx", "noop"):
         depth = 3 if thorough else 2
